@@ -8,6 +8,7 @@ from arrays import (Lab, build_array, compare_lab, cq_farr, cq_oarr, cq_res, fin
 from common import cq_Q
 
 ID = "C01"
+THOROUGH_ROUNDS = 3      # rounds of generate() in the thorough tier (new random draws each round)
 COQ_MODULE = "Corr.C01"
 EXHAUSTIVE = True
 RULE = ("exhaustive over all ordered pairs of ordered dimension subsets (every subset in every storage order, rank 0 "
